@@ -17,18 +17,20 @@ Theorem C13_total : forall (r : fenv) pol f,
 Proof. exact expand_total. Qed.
 Print Assumptions C13_total.
 
-Theorem C13_total_eval : forall EV (r : fenv) pol f,
+(* ... and with expressions: additionally the typed expression error. [ev_real]: the
+   evaluator always answers (the third answer EvNeed exists only for the harness protocol) *)
+Theorem C13_total_eval : forall EV (r : fenv) pol f, ev_real EV ->
   match expand_eval EV r pol f with
   | Ok _ => True
   | Err (EMissing _ | EUnclosed _ | ECycle _ | EExpr _) => True
   | _ => False
   end.
-Proof. exact expand_eval_total. Qed.
+Proof. exact expand_eval_total_real. Qed.
 Print Assumptions C13_total_eval.
 
-Theorem C13_eval_total : forall EV s,
+Theorem C13_eval_total : forall EV s, ev_real EV ->
   match eval EV s with Ok _ => True | Err (EExpr _) => True | _ => False end.
-Proof. exact eval_total. Qed.
+Proof. exact eval_total_real'. Qed.
 Print Assumptions C13_eval_total.
 
 (* text containing no ${ / no $( is returned unchanged *)
@@ -132,8 +134,8 @@ Example C13_ex_cycle : expand (E_ [("A", "${B}"); ("B", "x${A}")]) PError (S_ "$
 Proof. vm_compute. reflexivity. Qed.
 Example C13_ex_unclosed : expand (E_ []) PError (S_ "simple ${A") = Err (EUnclosed 7).
 Proof. vm_compute. reflexivity. Qed.
-Definition EVtest (s : str) : option str :=
-  if str_eqb s (S_ "1+1") then Some (S_ "2") else if str_eqb s (S_ "1+2") then Some (S_ "3") else None.
+Definition EVtest (s : str) : evr :=
+  if str_eqb s (S_ "1+1") then EvOk (S_ "2") else if str_eqb s (S_ "1+2") then EvOk (S_ "3") else EvErr.
 Example C13_ex_eval : eval EVtest (S_ "foo $(1+$(1+1)) after_foo") = Ok (S_ "foo 3 after_foo").
 Proof. vm_compute. reflexivity. Qed.
 Example C13_ex_eval_escaped : eval EVtest (S_ "foo $$(1+1) $(1+1)") = Ok (S_ "foo $$(1+1) 2").
